@@ -105,8 +105,8 @@ func (esp *EntityStreamParser) ParseTransaction(reader io.Reader) (*Transaction,
 				return nil, errors.New("parsing error: Unable to read next token " + err.Error())
 			}
 			delimVal, isDelim := t.(json.Delim)
-			if !isDelim && delimVal.String() != "[" {
-				return nil, errors.New("parsing error: Unexpected delimiter - expected [ but got : " + delimVal.String())
+			if !isDelim || delimVal.String() != "[" {
+				return nil, errors.New("parsing error: expected [ after dataset name " + datasetName)
 			}
 			done := false
 			entities := make([]*Entity, 0)
@@ -126,6 +126,10 @@ func (esp *EntityStreamParser) ParseTransaction(reader io.Reader) (*Transaction,
 				} else if isDelim && delimVal.String() == "]" {
 					done = true
 					break
+				} else {
+					// anything else is not an entity: do not skip it silently (the tokens that follow
+					// would be taken for entities of this dataset)
+					return nil, errors.New("parsing error: expected an entity or ] in the entity array of dataset " + datasetName)
 				}
 			}
 
